@@ -70,6 +70,8 @@ def mask(kind, s, inline, groups):
             items = json.loads(s)
         except ValueError:
             return s
+        if not isinstance(items, list) or not items or not isinstance(items[0], list):
+            return s
         out = []
         for it in items:
             if inline and it[0] == "<" and it[1] == "LTFigure" and isinstance(it[4], str) and _ADDR.match(it[4]):
@@ -303,7 +305,7 @@ def replay_schedule(sched, docs, fresh, out, si):
 def replay_chunk(idxs):
     logging.disable(logging.CRITICAL)
     out = {"mismatch": [], "pages": 0, "calls": 0, "tables": [], "pid": os.getpid()}
-    before = G.setdefault("tables0", OBS.shared_tables())
+    before = OBS.shared_tables()
     for si in idxs:
         replay_schedule(G["scheds"][si], G["docs"], G["fresh"], out, si)
         if len(out["mismatch"]) > 200:
@@ -338,9 +340,8 @@ def pool_references(ck, fp, docs):
         cl = classify(k, got, want)
         if cl is None:
             continue
-        axis = "page-subset-dependent"
-        if not c and classify(k, fresh[(k, d, True, ps)], want) != "diff":
-            axis = "caching-dependent"
+        # the other caching flag agrees with the composition: it is the flag that matters, otherwise the page subset
+        axis = "caching-dependent" if classify(k, fresh[(k, d, not c, ps)], want) != "diff" else "page-subset-dependent"
         report(ck, axis, k, cl, "fresh %s of %s with caching=%s page_numbers=%s differs from the single-page results composed: %s"
                % (k, d, c, set(ps), first_difference(got, want)),
                {"kind": "fresh-call", "doc": d, "entry": k, "caching": c, "pages": list(ps)})
@@ -401,7 +402,6 @@ def direction_a(ck, jobs, fp, docs, fresh, single, tokens):
         size = max(50, min(400, len(order) // (nproc * 3) + 1))
         chunks = [order[i:i + size] for i in range(0, len(order), size)]
         G.update(scheds=scheds, docs=docs, fresh=fresh)
-        G.pop("tables0", None)
         ctx = multiprocessing.get_context("fork")
         pages = calls = 0
         pids = set()
@@ -709,7 +709,8 @@ def run(ck):
     docs = PD.pool()
     fp = OBS.FreshPool(n=max(4, min(12, (os.cpu_count() or 4) - 4)))
     try:
-        tokens = fp.ask(0, {"op": "tokens"})
+        # horizontal and vertical table constants come from two different fresh processes
+        tokens = PD.merge_tokens(fp.ask(0, {"op": "tokens", "part": "h"}), fp.ask(1, {"op": "tokens", "part": "v"}))
         fresh, single = pool_references(ck, fp, docs)
         # the verification runs
         stage(ck, "wait for TLC verification / refutation runs")
@@ -748,6 +749,10 @@ def run(ck):
     finally:
         fp.close()
     ck.extra["fresh_process_requests_served"] = fp.served
+    if ck.violations:
+        keys = sorted({k for (k, _, _) in ck.violations})
+        ck.extra["violation_keys"] = keys
+        print("C12 violation keys: " + ", ".join(keys))
     ck.extra["wall_s_total"] = round(time.time() - t0, 1)
     ck.exhaustive = True
 
